@@ -87,6 +87,26 @@ pub fn codec_case(case: &Value, dispatch: Dispatch, r: &mut Report) {
         }
     };
 
+    // --- implementation trace of the string table: writer run, then reader run on the writer's bytes
+    if let Some(mut t) = crate::trace::TraceFile::open(case) {
+        t.line(json!({"ev": "begin", "side": "w"}));
+        t.start();
+        let enc = crate::ops::stream_encode(&[(ops, v)]);
+        let evs = t.stop();
+        crate::trace::table_events(&mut t, &evs);
+        t.line(json!({"ev": "end", "side": "w", "ok": enc.is_ok() as i32}));
+        if let Outcome::Ok(real) = &enc {
+            t.line(json!({"ev": "begin", "side": "r"}));
+            t.start();
+            let dec = ops.decode_top(real);
+            let evs = t.stop();
+            crate::trace::table_events(&mut t, &evs);
+            t.line(json!({"ev": "end", "side": "r", "ok": dec.is_ok() as i32}));
+        }
+        t.flush();
+        r.count("traced_values");
+    }
+
     // --- encode on every sink
     r.count("enc");
     let encs = ops.encode(v);
